@@ -963,3 +963,96 @@ def rule_header_fully_stamped(res, rid, m):
     if n == 0:
         raise Broken("header writer has no path through getRawMessageHeader")
     return n
+
+
+def rule_writes_inside_frame(res, rid, m):
+    """C07-R6: the free-byte count never underflows and every write lands inside the frame:
+    (a) on every path through the loop body the message header is written only when >= 16
+        bytes are free: the path either took the `bytesLeft < sizeof(MessageHeader)` test as
+        false, or opened a frame (fresh free count max - 8 >= 17 under the domain assumption)
+        with no decrement in between;
+    (b) the chunk length is min(free - sizeof(MessageHeader), ...) computed before the header
+        write, the header writer decrements the free count by sizeof(MessageHeader) exactly
+        once, and the chunk decrement follows;
+    (c) header and chunk are written at frame[size() - free]."""
+    f = m.putPacket
+    hw = [x for x in f.calls() if m.calls_fn(x, m.header_writer)]
+    if len(hw) != 1:
+        raise Broken("putPacket: expected one message-header write")
+    hw = hw[0]
+    hdr = m.fb.record(MH)["size"]
+    bl = "this->" + m.short(m.bytesLeft)
+    cfg = f.cfg
+    body_entry = cfg.succ[m.loop_block][0]
+    hb = cfg.block_for(hw)
+    ps = paths.enumerate_paths(f, body_entry, lambda b: b == hb)
+    n = 0
+    for p in ps:
+        if p.end_block != hb:
+            continue
+        n += 1
+        ok = False
+        why = "no test of the free bytes and no fresh frame before the header is written"
+        evs = []
+        for a in p.atoms:
+            if a[0] == "cmp" and a[1] == bl and const_value(a[5]) is not None:
+                k = const_value(a[5])
+                if (a[2] == ">=" and k >= hdr) or (a[2] == ">" and k >= hdr - 1):
+                    ok = True
+                    why = "free bytes >= %d on this path" % hdr
+        opened = False
+        for _, x in p.elems():
+            if x.get("k") == "call":
+                g = m.fb.resolve_call(x)
+                if g is m.opener:
+                    opened = True
+                    ok = True
+                    why = "a frame was opened on this path (fresh free count = max - %d >= %d)" % (m.fb.record(CH)["size"], MIN_FRESH)
+            if x.get("k") == "cassign" and lvalue_root(x["l"]) == m.bytesLeft:
+                ok = False
+                why = "the free count is decreased between the test/open and the header write"
+        res.check(ok, rid, "header-write:room#%d" % n, hw.get("loc"), why, "the message header can be written with fewer than %d free bytes: %s" % (hdr, why))
+    if n == 0:
+        raise Broken("putPacket: no path from the loop entry to the header write")
+    # (b) chunk length
+    cps = segmentation_copy(m)
+    if len(cps) != 1:
+        raise Broken("putPacket: expected one payload copy")
+    c, dst, src, ln = cps[0]
+    ldecl = strip_all_casts(ln).get("decl")
+    ldef = facts.local_defs(f).get(ldecl, [])
+    okmin = False
+    if len(ldef) == 1:
+        e = strip_all_casts(facts.expand(f, ldef[0], keep=(ldecl,)))
+        if e.get("k") == "call" and callee_name(e) == "std::min":
+            for a in e.get("args", []):
+                a = strip_all_casts(a)
+                if a.get("k") == "bin" and a.get("op") == "-" and strip_all_casts(a["l"]).get("field") == m.bytesLeft and (const_value(a["r"]) or 0) >= hdr:
+                    okmin = True
+    res.check(okmin, rid, "chunk:bounded-by-room", c.get("loc"), "chunk = min(free - %d, ...)" % hdr,
+              "the chunk length is not bounded by the free bytes minus the %d-byte message header" % hdr)
+    decs = [x for x in m.header_writer.nodes() if x.get("k") == "cassign" and x.get("op") == "-" and lvalue_root(x["l"]) == m.bytesLeft]
+    okdec = len(decs) == 1 and const_value(decs[0]["r"]) == hdr
+    res.check(okdec, rid, "header-writer:decrement", decs[0].get("loc") if decs else m.header_writer.loc, "header writer takes exactly %d bytes from the free count" % hdr,
+              "the header writer does not decrease the free count by exactly sizeof(MessageHeader) once")
+    pos_l = cfg.pos_of.get(next((x["id"] for x in f.nodes() if x.get("k") == "decl" and any(v.get("decl") == ldecl for v in x.get("vars", []))), -1), -1)
+    okord = cfg.block_for(hw) == cfg.block_for(c) and pos_l >= 0 and pos_l < cfg.pos_of[hw["id"]] < cfg.pos_of[c["id"]]
+    res.check(okord, rid, "chunk:computed-before-header", c.get("loc"), "chunk computed, then header written, then chunk copied",
+              "the chunk length is not computed before the header write that takes its 16 bytes")
+    # (c) write positions
+    for what, fn, node in (("chunk", f, dst), ("header", m.header_writer, None)):
+        if node is None:
+            cand = [x for x in fn.calls() if callee_name(x) == PKT + "::getRawMessageHeader"]
+            if len(cand) != 1:
+                raise Broken("header writer: expected one getRawMessageHeader call")
+            node = cand[0]["args"][0]
+        e = facts.expand(fn, node)
+        subs = [x for x in walk(e) if x.get("k") == "call" and (x.get("callee") or {}).get("nm") == "operator[]"]
+        okpos = False
+        for sub in subs:
+            idx = strip_all_casts(sub["args"][0])
+            if idx.get("k") == "bin" and idx.get("op") == "-" and (strip_all_casts(idx["l"]).get("callee") or {}).get("nm") == "size" and strip_all_casts(idx["r"]).get("field") == m.bytesLeft and \
+                    m.frames in depends(fn, sub["obj"])[0]:
+                okpos = True
+        res.check(okpos, rid, "%s:position" % what, node.get("loc") if isinstance(node, dict) else fn.loc, "%s written at frame[size() - free]" % what,
+                  "the %s is not written at frame[size() - free bytes]" % what)
